@@ -74,7 +74,10 @@ class _Timeout(Exception):
     pass
 
 
-def limit_check(row, rng, samples):
+TLM_ABANDONED = []
+
+
+def limit_check(row, rng, samples, budget_s=25.0):
     """where a finite value is reported at 0 Hz or at infinite frequency it is the continuous extension of the finite-frequency
     values: the values at 1e-6, 1e-9, 1e-12 Hz (1e9, 1e12, 1e15 Hz) approach it — the last one to within 1 % of the scale, or the
     distances shrink by a factor of 3 or more per step.  Exponent-like parameters (limits within [0, 1]) are kept >= 0.5 so that the
@@ -84,11 +87,16 @@ def limit_check(row, rng, samples):
 
     def on_alarm(*a):
         raise _Timeout()
+    import time
     cls = row["cls"]
     checked = skipped = 0
+    t_start = time.time()
     old = signal.signal(signal.SIGALRM, on_alarm)
     try:
         for trial in range(samples):
+            if time.time() - t_start > budget_s:      # sympy's limit() can take minutes for the transmission lines: bounded per class
+                skipped += 1
+                continue
             vals = {}
             if trial:
                 vals = sample_params(row, rng)
@@ -102,7 +110,7 @@ def limit_check(row, rng, samples):
                 continue
             for name, f0, seq in (("0 Hz", 0.0, [1e-6, 1e-9, 1e-12]), ("infinite frequency", float("inf"), [1e9, 1e12, 1e15])):
                 try:
-                    signal.alarm(10)
+                    signal.alarm(8)
                     with np.errstate(all="ignore"):
                         z0 = complex(el.get_impedances(np.array([f0]))[0])
                         zs = [complex(el.get_impedances(np.array([f]))[0]) for f in seq]
@@ -131,7 +139,7 @@ def limit_check(row, rng, samples):
     return checked, skipped, None
 
 
-def tlm_sweep(rng, n_per_config):
+def tlm_sweep(rng, n_per_config, budget_s=None):
     """the general transmission line: all 27 admissible configurations (X_1/X_2 finite or short but not both short, Zeta
     finite, Z_A/Z_B finite|short|open) x random finite sub-circuits, plus a sample of inadmissible ones (which both sides
     must refuse): get_impedances vs the substituted symbolic expression.  Returns (configs, compared, first failure)."""
@@ -147,8 +155,19 @@ def tlm_sweep(rng, n_per_config):
         return c[0] != "open" and c[1] != "open" and not (c[0] == "short" and c[1] == "short") and c[4] == "fin"
     good = [c for c in all_cfgs if admissible(c)]
     bad = rng.sample([c for c in all_cfgs if not admissible(c)], 12)
+    import signal
+    import time
+
+    def on_alarm(*a):
+        raise _Timeout()
     configs = compared = 0
+    t_start = time.time()
+    old_handler = signal.signal(signal.SIGALRM, on_alarm)
+    # sympy needs from milliseconds to minutes for the substituted expression, depending on the sub-circuits drawn: every configuration
+    # gets 12 s (abandoned configurations are counted in TLM_ABANDONED, not judged) and the quick tier stops after its time budget
     for cfg in good * n_per_config + bad:
+        if budget_s is not None and time.time() - t_start > budget_s and configs >= len(good):
+            break
         configs += 1
         parts = []
         for k, c in zip(keys, cfg):
@@ -168,10 +187,16 @@ def tlm_sweep(rng, n_per_config):
         except Exception as e:  # noqa
             num = type(e).__name__
         try:
+            signal.alarm(12)
             expr = circuit.to_sympy(substitute=True)
             fs = list(expr.free_symbols)
             sym = complex(sympy.lambdify(fs, expr, "mpmath")(*[f for _ in fs])) if fs else complex(expr)
+            signal.alarm(0)
+        except _Timeout:
+            TLM_ABANDONED.append(text)
+            continue
         except Exception as e:  # noqa
+            signal.alarm(0)
             sym = type(e).__name__
         if isinstance(num, str) or isinstance(sym, str):
             # refused by both sides (e.g. a shorted boundary next to a shorted rail divides by zero in both) is consistent;
@@ -183,8 +208,11 @@ def tlm_sweep(rng, n_per_config):
             continue
         compared += 1
         if abs(num - sym) > 1e-7 * abs(sym):
+            signal.signal(signal.SIGALRM, old_handler)
             return configs, compared, {"cdc": text, "f": f, "numeric": repr(num), "equation": repr(sym),
                                        "relative_difference": abs(num - sym) / abs(sym)}
+    signal.alarm(0)
+    signal.signal(signal.SIGALRM, old_handler)
     return configs, compared, None
 
 
@@ -262,8 +290,8 @@ def run(rep, tier, seed, tr_errors):
                "%d limits checked, %d failures" % (sum(v["checked"] for v in lim.values()), len(lim_fail)))
     for sym, fail in lim_fail[:3]:
         rep.violation("limit_%s" % sym, {"kind": "counterexample", "obligation": "a reported finite limit is the continuous extension of the finite-frequency values", "input": {"class": sym, **fail}})
-    cfgs, ncmp, tfail = tlm_sweep(rng, 2 if tier == "quick" else 6)
-    sweep["Tlm"] = {"configurations": cfgs, "compared": ncmp, "failed": tfail is not None}
+    cfgs, ncmp, tfail = tlm_sweep(rng, 2 if tier == "quick" else 6, budget_s=150.0 if tier == "quick" else None)
+    sweep["Tlm"] = {"configurations": cfgs, "compared": ncmp, "failed": tfail is not None, "abandoned_after_12_s_of_sympy": len(TLM_ABANDONED)}
     rep.evaluations += ncmp
     rep.oblige("tlm-numeric-vs-symbolic on the implementation (27 admissible configurations + sampled inadmissible ones; the search behind C02_Tlm_numeric_eq_symbolic)", tfail is None,
                "" if tfail is None else json.dumps(tfail)[:300])
